@@ -726,6 +726,7 @@ var _ = late(func() {
 		&Rule{ID: "C01.cursor-validated", Floor: 8, Clause: "same rule as C02.cursor-validated: the iterators behind Range / RangeReverse read the cursor's slot only after lost() was found false (or a re-seek) and the node was re-checked for nil; lost() reads keys[i] only under curr != nil and i < n (a cleared slot can equal a zero-valued key): otherwise a range yields a zero entry, skips one, or panics at the end of the range", Run: ruleCursorValidated},
 		&Rule{ID: "C01.kv-carried-together", Floor: 1, Clause: "loop-carried key and value variables (k/v, key/value) are updated on the same edges: a loop that replaces the key it carries but keeps the old value pairs a key with another key's value", Run: ruleKVCarriedTogether})
 	properties["C14"].Rules = append(properties["C14"].Rules,
+		&Rule{ID: "C14.source-closed", Floor: 1, Clause: "MapStream's source is owned by the reader goroutine, which defers its Close in its entry block (same rule as C09.own-param restricted to MapStream): mapStream.Close returns only after the source was closed, whichever way the reader leaves (also through a <-ctx.Done() arm while parked on a full buffer)", Run: subRule(ruleOwnParams, "parallel.MapStream|")},
 		&Rule{ID: "C14.normalise-first", Floor: 2, Clause: "MapIterator / MapStream use the raw parallelism argument only to default it (parallelism <= 0 → GOMAXPROCS): every other use - in particular the bufferSize >= parallelism clamp - sees the defaulted value, otherwise a non-positive parallelism leaves bufferSize <= 0 and the dispatcher waits forever", Run: ruleNormaliseFirst})
 })
 
